@@ -565,12 +565,27 @@ class TcpClient:
         try:
             line = await self.plan.bounded(self.reader.readline(), f"{self.name} recv")
         except (OSError, ssl.SSLError):
-            return "closed"
+            # asyncio's StreamReader raises the connection error (e.g. the RST the server sends after a handler failure)
+            # before looking at its buffer: an answer that was received before the reset is still an answer
+            line = self._buffered_line()
+            if line is None:
+                return "closed"
         if line is TIMEOUT or line is DEAD:
             return line
         if not line:
             return "closed"
         return line.decode(errors="replace").rstrip("\n").replace(" ", "_")
+
+    def _buffered_line(self) -> bytes | None:
+        buf = getattr(self.reader, "_buffer", None)
+        if not isinstance(buf, bytearray):
+            return None
+        i = buf.find(b"\n")
+        if i < 0:
+            return None
+        line = bytes(buf[:i + 1])
+        del buf[:i + 1]
+        return line
 
     async def ask(self, line: str) -> str:
         self.send(line)
